@@ -4,7 +4,7 @@
     API; the correspondence check compares them.  The same function is run
     extracted (OCaml) and inside Coq ([Eval vm_compute]).  Definitions only. *)
 From SeqIO Require Import Model.Base Model.Fasta Model.Fastq Model.Views Model.Display
-     Gen.DisplayGen Gen.PolicyGen Spec.FastaSpec Spec.FastqSpec.
+     Gen.DisplayGen Gen.PolicyGen Spec.FastaSpec Spec.FastqSpec Model.Alloc.
 
 (* ------------------------------------------------------------------ *)
 (** * Text utilities *)
@@ -602,11 +602,38 @@ Definition run_policy_case (toks : list (list byte)) : list byte :=
   | _ => [98; 97; 100; 99; 97; 115; 101] ++ NL
   end.
 
+(** One allocation case: "al <fa|fq> <cap> <inp hex> <next|set> <warm>": for every call of
+    next() / read_record_set() (one reused set) the prediction of Model/Alloc.v whether the call
+    may allocate (some high-water mark rises or the policy is consulted): "al pred=0100..." *)
+Definition run_alloc_case (toks : list (list byte)) : list byte :=
+  match toks with
+  | _ :: fmt :: capt :: inpt :: modet :: _ =>
+      let capacity := undec capt in
+      let inp := if is_dash inpt then [] else unhex inpt in
+      let src := mkSource inp 0 [] [] in
+      let ffuel := S (S (length inp)) in
+      let fuel := 2 * length inp + 16 in
+      let n := length (filter (fun c => (c =? GT) || (c =? AT)) inp) + 2 in
+      let is_set := match modet with 115 :: _ => true | _ => false end in
+      let bits : list bool :=
+        match fmt, is_set with
+        | [102; 97], false => map snd (fa_run_allocs fuel ffuel n (fa_marks_new capacity) (fa_new capacity src pol_std))
+        | [102; 97], true => map snd (fa_set_run_allocs fuel ffuel n None (fa_marks_new capacity) fa_set_marks_new
+                                                        (fa_new capacity src pol_std) fa_set_empty)
+        | _, false => map snd (fq_run_allocs fuel ffuel n (fq_marks_new capacity) (fq_new capacity src pol_std))
+        | _, true => map snd (fq_set_run_allocs fuel ffuel n None (fq_marks_new capacity) fq_set_marks_new
+                                                (fq_new capacity src pol_std) fq_set_empty)
+        end in
+      [97; 108; 32; 112; 114; 101; 100; 61] ++ map (fun b : bool => if b then 49 else 48) bits ++ NL
+  | _ => [98; 97; 100; 99; 97; 115; 101] ++ NL
+  end.
+
 (** dispatcher: one case line in, trace lines out *)
 Definition run_line (line : list byte) : list byte :=
   let toks := split_on 32 line in
   match toks with
   | [119; 114] :: _ => run_writer_case toks
   | [112; 111; 108] :: _ => run_policy_case toks
+  | [97; 108] :: _ => run_alloc_case toks
   | _ => run_reader_case toks
   end.
